@@ -275,6 +275,48 @@ def mgh2_brute(DX, DY):
     return max(min_dis_brute(DX, DY), min_dis_brute(DY, DX))
 
 
+def exists_map_within(DX, DY, t):
+    """is there ANY map f: X -> Y with dis f <= t?  Exact constraint search (forward checking, smallest domain first);
+    independent of the code and of the model; exhaustive by construction (it only prunes assignments that already
+    violate |DX[x,x'] - DY[f x, f x']| <= t)"""
+    DX, DY = np.asarray(DX, dtype=int), np.asarray(DY, dtype=int)
+    n, m = len(DX), len(DY)
+    # compat[x, x'][y, y'] = |DX[x,x'] - DY[y,y']| <= t
+    compat = np.abs(DX[:, :, None, None] - DY[None, None, :, :]) <= t
+    dom0 = np.array([[compat[x, x, y, y] for y in range(m)] for x in range(n)], dtype=bool)
+
+    def go(dom, todo):
+        if not todo:
+            return True
+        x = min(todo, key=lambda v: int(dom[v].sum()))
+        rest = [v for v in todo if v != x]
+        for y in np.flatnonzero(dom[x]):
+            d2 = dom.copy()
+            ok = True
+            for v in rest:
+                d2[v] &= compat[x, v, y, :] & compat[v, x, :, y]
+                if not d2[v].any():
+                    ok = False
+                    break
+            if ok and go(d2, rest):
+                return True
+        return False
+    return go(dom0, list(range(n)))
+
+
+def min_dis_exact(DX, DY):
+    """min over all maps X -> Y of the distortion (integer metrics): first threshold at which a map exists"""
+    hi = int(max(np.max(DX), np.max(DY)))
+    for t in range(0, hi + 1):
+        if exists_map_within(DX, DY, t):
+            return t
+    return hi
+
+
+def mgh2_exact(DX, DY):
+    return max(min_dis_exact(DX, DY), min_dis_exact(DY, DX))
+
+
 def dis_of(DX, DY, f):
     DX, DY = np.asarray(DX, dtype=int), np.asarray(DY, dtype=int)
     n = len(DX)
@@ -350,6 +392,30 @@ def search_failing_input(ctx, what, case, corr, A=None, B=None, order=None, extr
                           {"AG": X.tolist(), "AH": Y.tolist(), "order": list(o), "np_seed": s}, found_input=True,
                           correspondence=corr, detail=det)
             return True
+    if not hasattr(ctx, "_c05_lbsearch"):            # once per run: a wide search on the lower bound alone (cheap: no mappings)
+        ctx._c05_lbsearch = None
+        g = G()
+        for _ in range(ctx.n(12000, 60000)):
+            n, m = r.randint(3, 8), r.randint(3, 8)
+            _, X = gen_graph(r, n, r.choice([None, None, "tree", "path", "lolli", "gnp"]))
+            _, Y = gen_graph(r, m, r.choice([None, None, "tree", "star", "star", "gnp"]))
+            if r.random() < 0.5:
+                X, Y = Y, X
+            DX, DY = metric(X), metric(Y)
+            st, lb, _ = call(g.find_lb, DX, DY)
+            if st != "ok":
+                continue
+            if int(lb) > 0 and int(lb) > mgh2_exact(DX, DY):
+                ctx._c05_lbsearch = (X, Y)
+                break
+    if ctx._c05_lbsearch is not None:
+        X, Y = ctx._c05_lbsearch
+        ok, det = bracket_on_real_code(X, Y, (0.5, 1.0), 0)
+        if not ok:
+            ctx.violation("%s; the lower bound exceeds the exact distance on the real code: %r" % (what, det),
+                          {"AG": np.asarray(X).tolist(), "AH": np.asarray(Y).tolist(), "order": [0.5, 1.0], "np_seed": 0}, found_input=True,
+                          correspondence=corr, detail=det)
+            return True
     c = {"correspondence": corr}
     c.update(case)
     if extra:
@@ -392,6 +458,12 @@ def nat(x):
     return int(x)
 
 
+def found_any(ctx):
+    """a failing input of the property is already on record (a broken correspondence alone does not end the search:
+    the exact-oracle streams below are part of it)"""
+    return any(f for _, f in ctx.violations) or len(ctx.violations) > 40
+
+
 def run(ctx):
     g = G()
     ctx.extra["source_digest"] = common.source_digest(SRC, ANCHORED)
@@ -428,12 +500,13 @@ def run(ctx):
     degenerate_orders(ctx, b)
     b.flush(ctx)
     ctx.extra["branch_hits"] = cov.summary()
-    if len(ctx.violations) > 5:
+    if found_any(ctx):
         return
     oracle_stream(ctx)
     feas_exhaustive(ctx)
     large_graph_probe(ctx)
     iso_midsize(ctx)
+    oracle_midsize(ctx)
 
 
 def one_pair(ctx, b, kind, A, B, iso):
@@ -739,7 +812,7 @@ def feas_failure(ctx, v, u, d, code, exh):
 
 def feas_exhaustive(ctx):
     """[T] thorough: all pairs of distributions with max_d <= 5, |v| <= 6, |u| <= 7 (quick: a slice of the space)"""
-    if len(ctx.violations) > 5:
+    if found_any(ctx):
         return
     g = G()
 
@@ -838,6 +911,51 @@ def oracle_stream(ctx):
                 return
 
 
+def oracle_midsize(ctx):
+    """[T] the bracket on the real code against the EXACT 2*mGH of graphs with 7-10 vertices (constraint search
+    `mgh2_exact`, cross-validated against the exhaustive enumeration on every small case of this run): the sizes at
+    which a mapping construction that stops early, or a bound that is only wrong for long cycles/paths, shows"""
+    if found_any(ctx):
+        return
+    r = ctx.rng
+    for _ in range(ctx.n(30, 400)):                     # the oracle itself against brute force
+        n, m = r.randint(1, 5), r.randint(1, 5)
+        DX, DY = metric(gen_graph(r, n)[1]), metric(gen_graph(r, m)[1])
+        a, b = mgh2_exact(DX, DY), mgh2_brute(DX, DY)
+        ctx.test("constraint_search_vs_bruteforce", a == b)
+        if a != b:
+            raise common.HarnessError("mgh2_exact=%s but brute force=%s on %r %r" % (a, b, DX.tolist(), DY.tolist()))
+    for i in range(ctx.n(140, 1500)):
+        n, m = r.randint(6, 10), r.randint(5, 10)
+        fam = r.random()
+        if fam < 0.3:                                   # even cycle against a path of about half its length, and neighbours
+            k = r.randint(3, 6)
+            _, A = gen_graph(r, 2 * k - r.choice([0, 0, 1]), "cycle")
+            _, B = gen_graph(r, k + r.choice([0, 1, 1, 2]), "path")
+        elif fam < 0.5:
+            _, A = gen_graph(r, n, r.choice(["cycle", "path", "lolli", "tree"]))
+            _, B = gen_graph(r, m, r.choice(["path", "star", "tree", "gnp"]))
+        else:
+            _, A = gen_graph(r, n)
+            _, B = gen_graph(r, m)
+        if r.random() < 0.5:
+            A, B = B, A
+        B = relabel(r, B)
+        DX, DY = metric(A), metric(B)
+        mgh2 = mgh2_exact(DX, DY)
+        order, s = r.choice(ORDERS), r.randrange(2 ** 31)
+        ok, det = bracket_on_real_code(A, B, order, s, mgh2=mgh2)
+        ctx.test("lb<=mGH<=ub, half-integral (real code vs exact constraint search, 6-10 vertices)", ok)
+        ctx.count("oracle_midsize:n=%d" % max(len(DX), len(DY)))
+        if det.get("lb") is not None:
+            ctx.count("oracle_midsize:" + ("tight" if 2 * det["lb"] == mgh2 == 2 * det["ub"] else "strict_gap"))
+        if not ok:
+            ctx.violation("the mGH estimates do not bracket the exact distance of two graphs with %d and %d vertices: %r" % (len(DX), len(DY), det),
+                          {"AG": np.asarray(A).tolist(), "AH": np.asarray(B).tolist(), "order": list(order), "np_seed": s, "iso": False,
+                           "oracle": "mgh2_exact"}, found_input=True, detail=det)
+            return
+
+
 FINDING_SITE = "persim/gromov_hausdorff.py:int8-key-product"
 
 
@@ -846,7 +964,7 @@ def iso_midsize(ctx):
     sparse random graphs, spiders) against a random relabelling: 2*mGH = 0 is known without any search, so this clause
     has an exact oracle at sizes where exhaustive mGH is out of reach.  An unsound tightening of the lower bound that
     only shows on graphs beyond the exhaustive range (>= 11 vertices) is caught here."""
-    if len(ctx.violations) > 5:
+    if found_any(ctx):
         return
     g, r = G(), ctx.rng
     for _ in range(ctx.n(2500, 25000)):
@@ -880,7 +998,7 @@ def large_graph_probe(ctx):
     NumPy 2 refuses a Python int that does not fit the scalar's type (OverflowError), so no bounds are returned at all
     (repaired in /repo by `int(diam_X)`).  A crash here is a failing input of the property (VIOLATION with replay) unless
     known_findings.txt (never written here) carries a `known:` entry for it, in which case it prints KNOWN-FINDING."""
-    if len(ctx.violations) > 5:
+    if found_any(ctx):
         return
     g = G()
     A = adj_from_edges(128, [(0, i) for i in range(1, 128)])
@@ -910,7 +1028,8 @@ def replay(ctx, rep):
     c = rep["case"]
     if "AG" in c and "np_seed" in c:
         A, B = np.array(c["AG"]), np.array(c["AH"])
-        ok, det = bracket_on_real_code(A, B, tuple(c["order"]), c["np_seed"], mgh2=0 if (c.get("iso") and len(A) > 6) else None)
+        mg = 0 if (c.get("iso") and len(A) > 6) else (mgh2_exact(metric(A), metric(B)) if c.get("oracle") == "mgh2_exact" else None)
+        ok, det = bracket_on_real_code(A, B, tuple(c["order"]), c["np_seed"], mgh2=mg)
         if ok and (c.get("iso") or is_iso_pair(A, B)):
             ok = det["lb"] == 0.0
         print("gromov_hausdorff(AG, AH, mapping_sample_size_order=%s) after np.random.seed(%s): %r" % (c["order"], c["np_seed"], det))
